@@ -117,7 +117,9 @@ def build_pair(E, diffs):
         mm = dict(md["metadata"])
         mm["tags"] = ["x"]
         m2["metadata"] = mm
-    if diffs["id"]:
+    if diffs["id"] == 3:
+        c2["id"], m2["id"] = md["id"], code["id"]      # the two cells exchange their ids
+    elif diffs["id"]:
         c2["id"] = "changed-id-0"
         if diffs["id"] == 2:
             m2["id"] = "changed-id-1"
@@ -135,7 +137,7 @@ def build_pair(E, diffs):
     return G.finalize(A), G.finalize(B)
 
 
-NVAR = {"sources": 3, "outputs": 3, "attachments": 4, "metadata": 5, "id": 3, "details": 3}
+NVAR = {"sources": 3, "outputs": 3, "attachments": 4, "metadata": 5, "id": 4, "details": 3}
 
 
 def make_ignore(mode, lo, hi, full=False, props=("C14",), known=()):
@@ -162,6 +164,10 @@ def make_ignore(mode, lo, hi, full=False, props=("C14",), known=()):
             return
         finally:
             reset_notebook_differ()
+        if "F32" in known and diffs["id"] == 3 and "id" in ignored:
+            # F32: ids are ignored by the differs but still used to align the cells
+            E.known("F32")
+            return
         E.nontrivial(bool(ignored) and any(diffs.values()))
         E.goal("nonempty-diff-with-ignores", bool(ignored) and len(d) > 0)
         E.goal("empty-diff-with-differences", len(d) == 0 and any(diffs.values()))
